@@ -385,7 +385,7 @@ def execute(case):
         except RecursionError:
             return
         except Exception as e:
-            if "simplify" in label and _sympy_simplify_raises(d, type(e)):
+            if "simplify" in label and (_raised_inside_sympy_simplify(e) or _sympy_simplify_raises(d, type(e))):
                 # SymbolicDim.simplify is sympy.simplify applied to the dimension's expression; when that call itself
                 # fails on an expression that evaluates correctly, nothing was simplified and no evaluation changed -
                 # the statement asks no more of simplification.  Counted, not a verdict.
@@ -522,6 +522,19 @@ def _pure_sympy(tree, syms):
     return {"add": lambda: a + b, "sub": lambda: a - b, "mul": lambda: a * b, "truediv": lambda: a / b,
             "floordiv": lambda: sympy.floor(a / b), "mod": lambda: sympy.Mod(a, b), "min": lambda: sympy.Min(a, b),
             "max": lambda: sympy.Max(a, b), "pow": lambda: a ** b}[k]()
+
+
+def _raised_inside_sympy_simplify(e):
+    """True iff the exception came out of sympy.simplify() as called by the library's simplify(): the innermost frame is SymPy's,
+    and the innermost onnx_ir frame is a `simplify` method.  (Calling sympy.simplify a second time to see whether it raises
+    again is not reliable: SymPy's global cache makes the outcome depend on what the process simplified before.)"""
+    import traceback
+
+    frames = traceback.extract_tb(e.__traceback__)
+    if not frames or "sympy" not in frames[-1].filename:
+        return False
+    ours = [f for f in frames if "onnx_ir" in f.filename]
+    return bool(ours) and ours[-1].name == "simplify"
 
 
 def _sympy_simplify_raises(d, exc_type):
